@@ -27,7 +27,7 @@ from typing import (
 import lupa.lua51 as lupa
 from lupa.lua51 import lua_type
 
-from .common import is_numbered_arg_name
+from .common import MAGIC_RE_PATTERN, is_numbered_arg_name
 from .interwiki import mw_site_interwikiMap
 from .parserfns import (
     PARSER_FUNCTIONS,
@@ -455,6 +455,9 @@ def call_lua_sandbox(
                 if m is not None:
                     # named parameter
                     k, arg = m.groups()
+                    if MAGIC_RE_PATTERN.search(k):
+                        # the name is computed ({{#invoke:m|f|{{t}}=v}})
+                        k = expander(k).strip()
                     if is_numbered_arg_name(k):
                         # Greek wiktionary uses '0', '00' and '000' as
                         # parameter names...
